@@ -294,7 +294,11 @@ func (r *Run) finish() {
 		"level":       "proof",
 		"wall_s":      time.Since(r.Start).Seconds(),
 		"violations":  violations,
-		"assumptions": append(notes, r.Bounded...),
+		"assumptions": append(append([]string{
+			"go/packages + go/ssa (x/tools v0.29.0) represent the compiled program faithfully; the Go compiler and runtime implement the language semantics",
+			"the SMT solvers (z3 4.8.12, z3 5.1.0, cvc5 1.0) are sound on the quantifier-free bit-vector/array/UF queries they answer unsat",
+			"single-threaded semantics: goroutine interleavings and data races are outside this check",
+		}, notes...), r.Bounded...),
 		"coverage": map[string]interface{}{
 			"obligations":         len(r.Obls) - boundedOK - len(knownSeen),
 			"bounded_searches":    boundedOK,
